@@ -594,6 +594,13 @@ def step (st : St) (line : String) : St × String :=
   | ["config", ivS, backend] =>
     let iv := natOr ((ivS.drop 3).toString) 1
     (⟨iv, st.prop, { disk := backend == "backend=disk" }⟩, "ok config:" ++ ivS)
+  -- C06: the stored form of a krill command / event / change of the given type and shape reads back
+  -- what was written (`from_value (to_value x) = x`, harness `serde_rt.rs`); no state, the only outcome is `ok`
+  | "serde" :: ty :: rest =>
+    let ret := obsRet (words (splitObs line).2)
+    if st.prop == "C07" then (st, "ok trivial:serde")
+    else if ret == "ok" then (st, s!"ok serde:{ty}")
+    else (st, fmtFail "oracle" s!"stored_form_roundtrips {ty} {" ".intercalate rest} ret={ret}")
   | _ =>
     let r := stepD st.prop st.d line
     (⟨st.iv, st.prop, r.1⟩, r.2)
